@@ -116,6 +116,7 @@ type Event struct {
 	Ok      bool                   `json:"ok"`
 	Repeat  map[string]interface{} `json:"repeat"`
 	Note    string                 `json:"note"`
+	Src     string                 `json:"src"` // the scenario that produced the event (for replays; opaque to the specification)
 	probe   *Event                 // a second event of the same scenario (merge of a shallow commit), emitted after this one
 }
 
@@ -544,6 +545,10 @@ func Replay(i int, raw []byte) child.Result {
 		return child.Inconclusive(err)
 	}
 	if ev != nil {
+		ev.Src = string(raw)
+		if ev.probe != nil {
+			ev.probe.Src = string(raw)
+		}
 		child.EmitBatch("sync", []interface{}{map[string]interface{}{"op": "reset"}, ev})
 		if ev.probe != nil {
 			child.EmitBatch("sync", []interface{}{map[string]interface{}{"op": "reset"}, ev.probe})
